@@ -162,3 +162,68 @@ package local
 //@ loop 9 invariant[old-entries-keep-deleted-flag] forall k structs.CheckID :: old(has(l.checks, k)) ==> l.checks[k].Deleted == old(l.checks[k].Deleted)
 //@ loop 9 invariant[not-in-remote-marked] forall k structs.CheckID :: old(has(l.checks, k)) && !has(remoteChecks, k) ==> !l.checks[k].InSync
 //@ loop 9 invariant[visited-remote-only-deleted] forall k structs.CheckID :: range9_visited[k] && has(remoteChecks, k) && !old(has(l.checks, k)) && !structs.IsSerfCheckID(k) ==> l.checks[k].Deleted
+
+// ---- C16: "local deregistrations are never forgotten across failures" starts here: removing a service or a check
+// locally must leave a tombstone (the entry stays in the map, marked Deleted and out of sync) until the catalog has
+// confirmed the deregistration (deleteService / deleteCheck above are the only functions that drop an entry).
+// The notification helpers (channels, select) are outside the verified subset: ASSUMED to leave the two maps and the
+// entries' flags alone.
+//@ func State.notifyIfAliased
+//@ trusted
+//@ modifies nothing
+//@ func State.broadcastUpdateLocked
+//@ trusted
+//@ modifies nothing
+
+//@ func State.removeCheckLocked
+//@ props C16
+//@ results err
+//@ requires l != nil
+//@ requires[entries-distinct] entriesDistinct(l)
+//@ ensures[tombstone-kept] err == nil ==> has(l.checks, id) && l.checks[id] != nil && l.checks[id].Deleted && !l.checks[id].InSync
+//@ ensures[unknown-or-already-removed-is-an-error] (old(l.checks[id]) == nil || old(l.checks[id].Deleted)) <==> err != nil
+//@ ensures[error-changes-nothing] err != nil ==> forall k structs.CheckID :: has(l.checks, k) ==> l.checks[k] == nil || (l.checks[k].InSync == old(l.checks[k].InSync) && l.checks[k].Deleted == old(l.checks[k].Deleted))
+//@ ensures[no-entry-dropped-or-replaced] forall k structs.CheckID :: (has(l.checks, k) <==> old(has(l.checks, k))) && l.checks[k] == old(l.checks[k])
+//@ ensures[other-checks-flags-kept] forall k structs.CheckID :: k != id && has(l.checks, k) && l.checks[k] != nil ==> l.checks[k].InSync == old(l.checks[k].InSync) && l.checks[k].Deleted == old(l.checks[k].Deleted)
+//@ ensures[services-untouched] forall k structs.ServiceID :: (has(l.services, k) <==> old(has(l.services, k))) && l.services[k] == old(l.services[k]) && (has(l.services, k) && l.services[k] != nil ==> l.services[k].InSync == old(l.services[k].InSync) && l.services[k].Deleted == old(l.services[k].Deleted))
+
+//@ func State.removeServiceLocked
+//@ props C16
+//@ results err
+//@ requires l != nil
+//@ requires[entries-distinct] entriesDistinct(l)
+//@ ensures[tombstone-kept] err == nil ==> has(l.services, id) && l.services[id] != nil && l.services[id].Deleted && !l.services[id].InSync
+//@ ensures[unknown-or-already-removed-is-an-error] (old(l.services[id]) == nil || old(l.services[id].Deleted)) <==> err != nil
+//@ ensures[no-entry-dropped-or-replaced] forall k structs.ServiceID :: (has(l.services, k) <==> old(has(l.services, k))) && l.services[k] == old(l.services[k])
+//@ ensures[other-services-flags-kept] forall k structs.ServiceID :: k != id && has(l.services, k) && l.services[k] != nil ==> l.services[k].InSync == old(l.services[k].InSync) && l.services[k].Deleted == old(l.services[k].Deleted)
+//@ ensures[checks-untouched] forall k structs.CheckID :: (has(l.checks, k) <==> old(has(l.checks, k))) && l.checks[k] == old(l.checks[k]) && (has(l.checks, k) && l.checks[k] != nil ==> l.checks[k].InSync == old(l.checks[k].InSync) && l.checks[k].Deleted == old(l.checks[k].Deleted))
+
+//@ func State.RemoveServiceWithChecks
+//@ props C16
+//@ results err
+//@ requires l != nil
+//@ requires[entries-distinct] entriesDistinct(l)
+//@ ensures[service-deregistration-remembered] err == nil ==> has(l.services, serviceID) && l.services[serviceID] != nil && l.services[serviceID].Deleted && !l.services[serviceID].InSync
+//@ ensures[check-deregistrations-remembered] err == nil ==> forall j int :: 0 <= j && j < len(checkIDs) ==> has(l.checks, checkIDs[j]) && l.checks[checkIDs[j]] != nil && l.checks[checkIDs[j]].Deleted && !l.checks[checkIDs[j]].InSync
+//@ ensures[nothing-forgotten] (forall k structs.CheckID :: (has(l.checks, k) <==> old(has(l.checks, k))) && l.checks[k] == old(l.checks[k])) && (forall k structs.ServiceID :: (has(l.services, k) <==> old(has(l.services, k))) && l.services[k] == old(l.services[k]))
+//@ ensures[no-tombstone-revived] forall k structs.CheckID :: has(l.checks, k) && l.checks[k] != nil && old(l.checks[k].Deleted) ==> l.checks[k].Deleted
+//@ loop 1 invariant[so-far-remembered] 0 <= range1_idx && forall j int :: 0 <= j && j < range1_idx ==> has(l.checks, checkIDs[j]) && l.checks[checkIDs[j]] != nil && l.checks[checkIDs[j]].Deleted && !l.checks[checkIDs[j]].InSync
+//@ loop 1 invariant[nothing-forgotten] (forall k structs.CheckID :: (has(l.checks, k) <==> old(has(l.checks, k))) && l.checks[k] == old(l.checks[k])) && (forall k structs.ServiceID :: (has(l.services, k) <==> old(has(l.services, k))) && l.services[k] == old(l.services[k]))
+//@ loop 1 invariant[no-tombstone-revived] forall k structs.CheckID :: has(l.checks, k) && l.checks[k] != nil && old(l.checks[k].Deleted) ==> l.checks[k].Deleted
+//@ loop 1 invariant[service-tombstone] has(l.services, serviceID) && l.services[serviceID] != nil && l.services[serviceID].Deleted && !l.services[serviceID].InSync
+
+//@ func State.RemoveCheck
+//@ props C16
+//@ results err
+//@ requires l != nil
+//@ requires[entries-distinct] entriesDistinct(l)
+//@ ensures[tombstone-kept] err == nil ==> has(l.checks, id) && l.checks[id] != nil && l.checks[id].Deleted && !l.checks[id].InSync
+//@ ensures[no-entry-dropped-or-replaced] forall k structs.CheckID :: (has(l.checks, k) <==> old(has(l.checks, k))) && l.checks[k] == old(l.checks[k])
+
+//@ func State.RemoveService
+//@ props C16
+//@ results err
+//@ requires l != nil
+//@ requires[entries-distinct] entriesDistinct(l)
+//@ ensures[tombstone-kept] err == nil ==> has(l.services, id) && l.services[id] != nil && l.services[id].Deleted && !l.services[id].InSync
+//@ ensures[no-entry-dropped-or-replaced] forall k structs.ServiceID :: (has(l.services, k) <==> old(has(l.services, k))) && l.services[k] == old(l.services[k])
